@@ -58,6 +58,7 @@ TYPE_ALIASES: dict[str, ast.AST] = {}  # `X: TypeAlias = ...` of the module bein
 DYN: dict[str, list] = {}  # classes of dynamic values (dyn.py): class -> [(field, type, optional)]
 DYN_SINGLETONS: dict[str, str] = {}  # instance name -> its class
 DYN_ANY_NAMES: set[str] = set()  # annotations that denote a dynamic value
+NAMEDTUPLE_DYN: set[str] = set()  # the dynamic classes that are NamedTuples (iterable: their fields)
 
 
 def mangle(name: str) -> str:
@@ -227,6 +228,23 @@ def ann_type(a, classes) -> object:
     if isinstance(a, ast.Subscript) and isinstance(a.value, ast.Name) and a.value.id == "deque":
         return ("seq", ann_type(a.slice, classes))
     bad(a, "annotation")
+
+
+def field_and_group(mname: str, field: str, node):
+    """The descriptor of m.<field> and the names of its oneof group (the field alone when it is in none), for a message class
+    or a union of them: every alternative that has the field must agree on its type and on the group."""
+    found = []
+    for c in mname.split("|"):
+        fd = next((d for d in MESSAGES[c] if d["name"] == field), None)
+        if fd is None:
+            continue
+        group = [d["name"] for d in MESSAGES[c] if fd["oneof"] is not None and d["oneof"] == fd["oneof"]] or [field]
+        found.append((fd, group))
+    if not found:
+        bad(node, f"{mname} has no field {field}")
+    if any((f["type"], f["label"], f["type_name"], g) != (found[0][0]["type"], found[0][0]["label"], found[0][0]["type_name"], found[0][1]) for f, g in found):
+        bad(node, f"the field {field} differs between the alternatives of {mname}")
+    return found[0]
 
 
 def only_message_use(name: str, stmts: list) -> bool:
@@ -789,6 +807,9 @@ class Mode:
                                     and isinstance(pv.func.value, ast.Attribute) and ast.unparse(pv.func.value.value) == "jelly"
                                     and pv.func.value.attr in ENUM_TYPES and is_pure(pv.args[0])):
                                 checks.append((pv.args[0], sorted(set(ENUM_TYPES[pv.func.value.attr].values()))))
+                            elif isinstance(pv, ast.Call) and isinstance(pv.func, ast.Name) and pv.func.id == "type" and len(pv.args) == 1 \
+                                    and not pv.keywords and isinstance(pv.args[0], ast.Name):
+                                pass  # {type(x)}: never raises
                             else:
                                 bad(s, "effect inside an f-string")
                 env2 = dict(env)
@@ -820,6 +841,12 @@ class Mode:
                         if at is not None and compat(t, at):
                             t = at
                     env2[tgt.id] = t
+                    env2.pop("__alias__" + tgt.id, None)
+                    ma_ = re.fullmatch(r'\(msg_sub "(\w+)"%string "(\w+)"%string (\w+)\)', v) if isinstance(t, tuple) and t[0] == "pb" else None
+                    if ma_ and isinstance(env.get(ma_.group(3)), tuple) and env[ma_.group(3)][0] == "pb":
+                        # x = m.f for a sub-message f of the message m: x is that sub-message itself (Python hands out a reference);
+                        # what a callee later assigns in x shows in m (written back where x is passed to be filled)
+                        env2["__alias__" + tgt.id] = (ma_.group(3), ma_.group(1))
                     if t == "none":
                         v = "tt"  # a variable known to hold None: nothing reads its value (tests on it are decided statically)
                     return f"let {mangle(tgt.id)} := {v} in\n{self.stmts(rest, env2)}"
@@ -850,10 +877,7 @@ class Mode:
             if isinstance(tgt, ast.Attribute) and isinstance(tgt.value, ast.Name) and isinstance(env.get(tgt.value.id), tuple) \
                     and env[tgt.value.id][0] == "pb":
                 mname, x = env[tgt.value.id][1], mangle(tgt.value.id)
-                fd = next((d for d in MESSAGES[mname] if d["name"] == tgt.attr), None)
-                if fd is None:
-                    bad(s, f"{mname} has no field {tgt.attr}")
-                group = [d["name"] for d in MESSAGES[mname] if fd["oneof"] is not None and d["oneof"] == fd["oneof"]] or [tgt.attr]
+                fd, group = field_and_group(mname, tgt.attr, s)
 
                 def k_set(v, t):
                     w = {"int": "PInt", "bool": "PBool", "str": "PStr"}.get(t)
@@ -1255,6 +1279,10 @@ class Mode:
                     if (at, bt) == ("str", "str") and isinstance(op, (ast.Eq, ast.NotEq)):
                         c = f"(str_eqb {a} {b})"
                         return k(c if isinstance(op, ast.Eq) else f"(negb {c})", "bool")
+                    if DYN and at == "any" and isinstance(r, ast.Name) and r.id in DYN_SINGLETONS and r.id not in env and isinstance(op, (ast.Eq, ast.NotEq)):
+                        # x == <singleton>: no class defines an equality that holds between an instance and it, so: x is it
+                        c = f"(is_O_{DYN_SINGLETONS[r.id]} {a})"
+                        return k(c if isinstance(op, ast.Eq) else f"(negb {c})", "bool")
                     if at == ("opt", "any") and bt == "any" and isinstance(op, (ast.Eq, ast.NotEq)):
                         tr.uses_any = True
                         c = f"(match {a} with Some x_ => any_eqb x_ {b} | None => false end)"
@@ -1358,6 +1386,16 @@ class Mode:
             (ex, pt) = rest[0]
 
             def k_arg(v, t):
+                if DYN and t == "any" and isinstance(pt, tuple) and pt[0] in ("iter", "seq") and pt[1] == "any":
+                    # a dynamic value where an iterable is expected: the NamedTuples iterate over their fields; the other
+                    # classes are not iterable (a str is, character by character: outside the model)
+                    alts = ""
+                    for c_, fs_ in DYN.items():
+                        if c_ in NAMEDTUPLE_DYN:
+                            xs_ = [self.tr.gensym("i") for _ in fs_]
+                            items = "; ".join((x_ if ft_ == "any" else f"O_str {x_}") for x_, (_, ft_, _) in zip(xs_, fs_))
+                            alts += f"| O_{c_} {' '.join(xs_)} =>\n{go(rest[1:], acc + ['[' + items + ']'])}\n"
+                    return f"match {v} with\n{alts}| O_str _ => {self.on_exn('OutsideModel')}\n| _ => {self.on_exn('TypeError')}\nend"
                 if DYN and t == "any" and pt == "str":
                     # a dynamic value where a str is expected: Python checks nothing; the translation covers the case
                     # that it is a str and marks the other as outside the model
@@ -1384,13 +1422,18 @@ class Mode:
             bad(e, "argument count")
         muts = [(a, pt) for a, (p, pt) in zip(actuals, params) if is_mutable(pt)]
         keys = []
-        for a, _ in muts:
-            if isinstance(a, ast.Name) and a.id in env:
+        for a, pt_ in muts:
+            if isinstance(a, ast.Name) and env.get(a.id) == "any" and DYN and isinstance(pt_, tuple) and pt_[0] in ("iter", "seq"):
+                keys.append(("temp", tr.gensym("tmp")))  # a tuple value iterated over: the iterator is a temporary of the call
+            elif isinstance(a, ast.Name) and a.id in env:
                 keys.append(("local", a.id))
             elif isinstance(a, ast.Attribute) and isinstance(a.value, ast.Name) and a.value.id == "self":
                 keys.append(("field", a.attr))
+            elif isinstance(a, ast.Attribute) and isinstance(a.value, ast.Name) and isinstance(env.get(a.value.id), tuple) and env[a.value.id][0] == "pb" \
+                    and field_and_group(env[a.value.id][1], a.attr, e)[0]["type"] == 11:
+                keys.append(("sub", (a.value.id, a.attr)))  # m.f: the sub-message f of the local message m
             else:
-                bad(e, "an object passed to be changed in place must be self.<field> or a local name")
+                bad(e, "an object passed to be changed in place must be self.<field>, a local name or a sub-message of a local message")
         if len(set(keys)) != len(keys):
             bad(e, "the same object passed twice to be changed in place")
         outs = [tr.gensym("m") for _ in muts]
@@ -1400,14 +1443,27 @@ class Mode:
                     else f"let '({', '.join([r] + outs)}) := {fname} {' '.join(a)} in\n")
             env2 = env
             wb = []
+            subs = []  # (parent message, field, value): written into the parent when the call returns (a callee that raises is
+            #            taken to raise before it assigns: the parent keeps its content on that path)
             for (kind, name), o, (_, pt) in zip(keys, outs, muts):
                 if kind == "local":
                     code += f"let {mangle(name)} := {o} in\n"
+                    if "__alias__" + name in env:
+                        subs.append((*env["__alias__" + name], o))
+                elif kind == "sub":
+                    subs.append((name[0], name[1], o))
+                elif kind == "temp":
+                    pass
                 else:
                     wb.append((name, o, pt))
 
             def rest_code():
-                return f"match {r} with\n| Exn {ex} => {self.on_exn(ex)}\n| Val {x} =>\n{k('tt' if ret == 'none' else x, ret)}\nend"
+                back = ""
+                for m_, f_, o_ in subs:
+                    _, grp = field_and_group(env[m_][1], f_, e)
+                    gl = "[" + "; ".join(f'"{g}"%string' for g in grp) + "]"
+                    back += f'let {mangle(m_)} := msg_set {gl} "{f_}"%string {o_} {mangle(m_)} in\n'
+                return f"match {r} with\n| Exn {ex} => {self.on_exn(ex)}\n| Val {x} =>\n{back}{k('tt' if ret == 'none' else x, ret)}\nend"
 
             def chain(i):
                 if i == len(wb):
@@ -1930,9 +1986,18 @@ UNITS = {
                            "skip_fields": ["parsing_mode"], "drop_params": ["parsing_mode"],
                            # (the source annotates the decoded IRI handed to namespace_declaration as `str` in the base class)
                            "param_types": {"namespace_declaration.iri": "Any"}}]},
+    # the generic integration's term encoder: the two methods TermEncoder leaves to its subclasses, over the generic terms
+    "generic_serialize": {"src": "pyjelly/integrations/generic/serialize.py", "ctx": True, "uses": ["lookup_enc", "options", "encode"],
+                          "gen": "GenericSerializeGen",
+                          "items": [
+                              {"dyn": "obj", "src": "pyjelly/integrations/generic/generic_sink.py",
+                               "classes": ["IRI", "BlankNode", "Literal", "Triple", "Quad", "Prefix"], "singletons": {"DefaultGraph": "_DefaultGraph"}},
+                              {"extend": "TermEncoder", "subclass": "GenericSinkTermEncoder", "base_src": "pyjelly/serialize/encode.py",
+                               "methods": ["encode_spo", "encode_graph"], "inline": ["get_iri_field", "get_literal_field", "get_triple_field"],
+                               "recursive": {"method": "encode_spo", "through": ["TermEncoder_encode_quoted_triple"], "fuel": "term"}}]},
     "encode": {"src": "pyjelly/serialize/encode.py", "ctx": True, "uses": ["lookup_enc", "options"], "gen": "EncodeGen",
                "items": ["split_iri", ("TermEncoder", ["__init__", "start_statement", "_entry_index", "encode_iri_indices", "encode_iri",
-                                                       "encode_default_graph", "encode_literal"], ["encode_spo", "encode_graph"]),
+                                                       "encode_default_graph", "encode_literal", "set_bnode_field", "encode_quoted_triple"], ["encode_spo", "encode_graph"]),
                          "encode_namespace_declaration", "encode_options", "encode_spo", "encode_triple", "encode_quad"]},
 }
 
@@ -2039,6 +2104,11 @@ def run_unit(repo: Path, unit: str) -> tuple["Translator", set[str], list[str]]:
     tr.abbrev_s: list[str] = []      # imported definitions that depend on S only
     tr.abbrev_more: list[str] = []   # ... on further section variables (declared in between)
     tr.import_decls: list[tuple[str, str]] = []
+    tr.import_info: dict[str, tuple[str, list[str]]] = {}
+    tr.deferred_abbrev: list[str] = []
+    ext_specs = [i for i in (u["items"] or []) if isinstance(i, dict) and "extend" in i]
+    defined_virtuals = {f"{s_['extend']}_{m_}" for s_ in ext_specs for m_ in s_["methods"]} | ({"any_eqb"} if ext_specs else set())
+    tr.defined_virtuals = defined_virtuals
     for dep in u["uses"]:
         dtr, dinfo = run_unit(repo, dep)
         only = u.get("uses_only", {}).get(dep)  # import only the named classes of that unit (none of its section variables)
@@ -2064,7 +2134,7 @@ def run_unit(repo: Path, unit: str) -> tuple["Translator", set[str], list[str]]:
                 setattr(tr, attr, cur)
         tr.dict_consts.update(dtr.dict_consts)
         for v, decl in dinfo["decls"]:
-            if v not in [x for x, _ in tr.import_decls]:
+            if v not in [x for x, _ in tr.import_decls] and v not in defined_virtuals and not (v == "T" and ext_specs):
                 tr.import_decls.append((v, decl))
         for n in sorted(dinfo["deps"]):
             if n in dinfo["implicit"] and dinfo["deps"][n] == ["S"]:
@@ -2072,7 +2142,11 @@ def run_unit(repo: Path, unit: str) -> tuple["Translator", set[str], list[str]]:
             vs = dinfo["deps"][n]
             explicit = [v for v in vs if v != "T"]
             line = f"Notation {n} := ({UNITS[dep]['gen']}.{n} {' '.join(explicit)})."
-            (tr.abbrev_s if vs == ["S"] else tr.abbrev_more).append(line)
+            tr.import_info[n] = (UNITS[dep]["gen"], vs)
+            if set(vs) & defined_virtuals:
+                tr.deferred_abbrev.append(line)  # after the definitions of the parameters it takes (extend.py)
+            else:
+                (tr.abbrev_s if vs == ["S"] else tr.abbrev_more).append(line)
             imported[n] = vs
         if dtr.uses_any or any(v == "T" for v, _ in dinfo["decls"]):
             tr.uses_any = tr.uses_any  # the importing unit declares T only if it needs it (see translate_unit)
@@ -2082,7 +2156,9 @@ def run_unit(repo: Path, unit: str) -> tuple["Translator", set[str], list[str]]:
     DYN.clear()
     DYN_SINGLETONS.clear()
     DYN_ANY_NAMES.clear()
+    NAMEDTUPLE_DYN.clear()
     items = u["items"]
+    items = None if items is None else [i for i in items if not (isinstance(i, dict) and "extend" in i)]
     dyn_specs = [i for i in (items or []) if isinstance(i, dict) and "dyn" in i]
     ext_funcs = [i for i in (items or []) if isinstance(i, dict) and "function" in i]
     items = None if items is None else [i for i in items if not (isinstance(i, dict) and ("dyn" in i or "function" in i))]
@@ -2090,6 +2166,7 @@ def run_unit(repo: Path, unit: str) -> tuple["Translator", set[str], list[str]]:
         import dyn
         tr.out.append(f"(* ---- dynamic values ({spec['src']}): {', '.join(spec['classes'])}; {', '.join(spec.get('singletons', {}))} *)")
         dyn.add_dyn(tr, repo, spec)
+        tr.dyn_count = len(tr.out)
     for spec in ext_funcs:  # a function of another module that the unit's classes call
         fn = next((n for n in ast.parse((repo / spec["src"]).read_text()).body if isinstance(n, ast.FunctionDef) and n.name == spec["function"]), None)
         if fn is None:
@@ -2130,6 +2207,9 @@ def run_unit(repo: Path, unit: str) -> tuple["Translator", set[str], list[str]]:
                     if a.name in mc and not a.asname:
                         tr.consts[a.name] = mc[a.name]
                 for cn in ast.parse(mp.read_text()).body:
+                    if isinstance(cn, ast.AnnAssign) and isinstance(cn.target, ast.Name) and ast.unparse(cn.annotation) == "TypeAlias" \
+                            and cn.value is not None and cn.target.id in [a.name for a in n.names]:
+                        TYPE_ALIASES[cn.target.id] = cn.value  # a type alias of the module imported from
                     if isinstance(cn, ast.ClassDef) and [ast.unparse(b) for b in cn.bases] == ["IntEnum"] and cn.name in [a.name for a in n.names]:
                         INT_ENUMS[cn.name] = {st.targets[0].id: st.value.value for st in cn.body
                                               if isinstance(st, ast.Assign) and isinstance(st.targets[0], ast.Name) and isinstance(st.value, ast.Constant)}
@@ -2209,6 +2289,10 @@ def run_unit(repo: Path, unit: str) -> tuple["Translator", set[str], list[str]]:
             tr.int_sets[item_name(n)] = list(n.value.elts)
         else:
             bad(n, "module-level item")
+    for spec in ext_specs:
+        import extend
+        tr.out.append(f"(* ---- class {spec['subclass']}({spec['extend']}) ({rel}): the methods that {spec['extend']} leaves to its subclasses *)")
+        extend.add_extension(tr, repo, mod, spec, rel)
     any_ctx = bool(u["ctx"]) and not getattr(tr, "dyn", False) and (
         tr.uses_any or any(re.search(r"\bT\b", o) for o in tr.out) or any(v == "T" for v, _ in tr.import_decls))
     deps, implicit, decls = ctx_analysis(tr.out, imported, any_ctx, tr.import_decls, dyn=getattr(tr, "dyn", False)) if u["ctx"] else ({}, [], [])
@@ -2239,7 +2323,8 @@ def translate_unit(repo: Path, unit: str) -> str:
     more = sorted((n, vs) for n, vs in info["deps"].items() if n not in implicit and vs != ["S"])
     if more:
         tail.append("(* definitions with further leading arguments: " + "; ".join(f"{n} [{' '.join(v for v in vs if v != 'T')}]" for n, vs in more) + " *)")
-    return "\n".join(head + ["Section Gen.", CTX_STR] + ctx_any + tr.abbrev_s + inherited + tr.abbrev_more + tr.out + tail) + "\n"
+    dc = getattr(tr, "dyn_count", 0)  # the dynamic values first: the imported definitions are abbreviated at T := obj, any_eqb := obj_eqb
+    return "\n".join(head + ["Section Gen.", CTX_STR] + ctx_any + tr.out[:dc] + tr.abbrev_s + inherited + tr.abbrev_more + tr.out[dc:] + tail) + "\n"
 
 
 def main() -> int:
